@@ -210,3 +210,106 @@ class DebounceModel:
             if self.cnt_s == 0:
                 self.out_s = False
         return self.out
+
+
+# ----------------------------------------------------------------------------- run-time periods that CHANGE during a run
+class ToggleTickModel:
+    """ToggleSignal with run-time durations that change while it runs: transcription of the upstream ToggleMock of
+    test_toggle_signal_02.py (the only place where this is documented; that bench changes both intervals at random
+    times): per tick  cnt' = 0 if cnt + 1 >= first + second else cnt + 1  (i.e. the period counter wraps as soon as
+    it is at or above the *current* end value),  state = first_state iff cnt' < first;  reset: cnt = 0, state =
+    default, no pulses.  Only used after a reset has been seen (the mock's never-reset start differs, see the known
+    finding about the first phase)."""
+
+    def __init__(self, default_state, first_state):
+        self.default = bool(default_state)
+        self.first_state = bool(first_state)
+        self.cnt = 0
+        self.state = self.default
+        self.rising = False
+        self.falling = False
+
+    def tick(self, first, second, reset):
+        prev = self.state
+        self.rising = self.falling = False
+        if reset:
+            self.cnt = 0
+            self.state = self.default
+            return
+        self.cnt = 0 if self.cnt + 1 >= first + second else self.cnt + 1
+        self.state = self.first_state if self.cnt < first else (not self.first_state)
+        if prev != self.state:
+            if prev:
+                self.falling = True
+            else:
+                self.rising = True
+
+
+class PulseWindowMonitor:
+    """ClockDivider whose run-time period changes while it runs.  Neither the docstring nor the upstream mock says
+    what the phase is right after a change, so only what they do determine is asserted:
+      * within every stretch of enabled ticks with an unchanged period D a pulse occurs within the first D ticks
+        (the divider resumes with the new period within one new period),
+      * once a pulse has occurred in the stretch, pulses are exactly D ticks apart and one tick long."""
+
+    def __init__(self):
+        self.D = None
+        self.stable = 0
+        self.since = None
+
+    def reset(self):
+        self.D = None
+        self.stable = 0
+        self.since = None
+
+    def tick(self, D, active):
+        bad = []
+        if D != self.D:
+            self.D = D
+            self.stable = 0
+            self.since = None
+        self.stable += 1
+        if active:
+            if self.since is not None and self.since != D:
+                bad.append(("period", f"pulses {self.since} ticks apart with period {D}"))
+            self.since = 0
+        if self.since is None:
+            if self.stable >= D and not active:
+                bad.append(("resume", f"no pulse within the first {D} ticks after the period became {D}"))
+        else:
+            if not active and self.since >= D:
+                bad.append(("period", f"no pulse {self.since} ticks after the previous one with period {D}"))
+        if self.since is not None:
+            self.since += 1
+        return bad
+
+
+class CounterWindowMonitor:
+    """continuous_counter with a run-time limit that changes: docstring = incremented on each tick, continues from
+    zero when the limit is reached.  For a counter that is *above* a lowered limit nothing is documented for the raw
+    counter, so: (a) while the previous value is <= limit the successor is exact, (b) after the limit has been
+    unchanged for limit+1 ticks the value is <= limit (the counter resumes the new range within one new period)."""
+
+    def __init__(self):
+        self.L = None
+        self.stable = 0
+        self.prev = 0
+
+    def tick(self, L, value, reset):
+        bad = []
+        if L != self.L:
+            self.L = L
+            self.stable = 0
+        self.stable += 1
+        if reset:
+            if value != 0:
+                bad.append(("count", f"counter = {value} after reset"))
+        else:
+            if self.prev <= L:
+                exp = 0 if self.prev == L else self.prev + 1
+                if value != exp:
+                    bad.append(("count", f"counter = {value} after {self.prev} with limit {L}, expected {exp}"))
+            elif self.stable >= L + 1 and value is not None and value > L:
+                bad.append(("resume", f"counter = {value} still above the limit {L} after {self.stable} ticks with that limit"))
+        self.prev = value if value is not None else 0
+        return bad
